@@ -197,7 +197,15 @@ func (o *oracle) checkStops() {
 			continue
 		}
 		if in.state == stStopped {
-			if n := w.unfinished(in); n > 0 {
+			// (a submitter still parked before poolMu has not reached a pool yet:
+			// it will be refused when it gets there)
+			n := 0
+			for _, s := range w.subs {
+				if s.Inst == in.idx && s.Inc == in.inc && !s.Done && (s.Source != "" || s.HTTP && !w.prof.Yield) {
+					n++
+				}
+			}
+			if n > 0 {
 				o.v("C17", "stranded-after-stop", "i%d.%d: %d submissions still waiting after the sequencer stopped", in.idx, in.inc, n)
 			}
 		}
